@@ -112,6 +112,41 @@ def check_panel(case, ctx):
     for a_, b_, nm in zip(base, r4, ('u', 'v', 'w', 'phix', 'phiy')):
         ctx.ok(np.array_equal(np.asarray(a_)[:k], np.asarray(b_)), name + '.subset', '%s depends on how many points are requested' % nm)
 
+    # the same points handed over as a 2-D array in another memory layout (Fortran order, transposed view, xs/ys stored differently)
+    lay = case.get('layout', 'C')
+    rows = case.get('rows', 1)
+    if npts >= 2:
+        rows = max(1, min(rows, npts))
+        cols = npts // rows
+        m = rows * cols
+        X2 = xs[:m].reshape(rows, cols)
+        Y2 = ys[:m].reshape(rows, cols)
+        if lay == 'F':
+            X2, Y2 = np.asfortranarray(X2), np.asfortranarray(Y2)
+        elif lay == 'T':
+            X2, Y2 = np.ascontiguousarray(X2.T).T, np.ascontiguousarray(Y2.T).T
+        elif lay == 'mixed':
+            X2 = np.asfortranarray(X2)
+        elif lay == 'strided':
+            bigx = np.zeros((rows, 2 * cols)); bigx[:, ::2] = X2; X2 = bigx[:, ::2]
+            bigy = np.zeros((2 * rows, cols)); bigy[::2] = Y2; Y2 = bigy[::2]
+        ctx.label('layout:' + lay, 'rows>1' if rows > 1 and cols > 1 else 'rows=1')
+        with package(name + '.uvw'):
+            r5 = p.uvw(c, xs=X2, ys=Y2)
+        for a_, b_, nm in zip(base, r5, ('u', 'v', 'w', 'phix', 'phiy')):
+            b_ = np.asarray(b_)
+            ctx.ok(b_.shape == (rows, cols), name + '.layout.shape', '%s has shape %r for %r points' % (nm, b_.shape, (rows, cols)))
+            ctx.ok(all(b_[i, j] == np.asarray(a_).ravel()[i * cols + j] for i in range(rows) for j in range(cols)), name + '.layout',
+                   '%s[i,j] is not the value at (xs[i,j], ys[i,j]) for %s-layout 2-D point arrays' % (nm, lay))
+        if pd.num == 3:
+            with package(name + '.strain'):
+                s5 = p.strain(c, xs=X2, ys=Y2, NLterms=False)
+                s5ref = p.strain(c, xs=xs[:m], ys=ys[:m], NLterms=False)
+            for key in ('x', 'y', 'exx', 'eyy', 'gxy', 'kxx', 'kyy', 'kxy'):
+                g = np.asarray(s5[key])
+                ctx.ok(g.shape == (rows, cols) and np.array_equal(np.ascontiguousarray(g).ravel(), np.asarray(s5ref[key]).ravel()),
+                       name + '.layout.strain', "strain['%s'][i,j] is not the value at (xs[i,j], ys[i,j]) for %s-layout point arrays" % (key, lay))
+
     if pd.num == 1:
         return
     # strains
@@ -332,6 +367,8 @@ def _panel_strategy(draw, tier='quick'):
     case['other_cores'] = [draw(st.integers(1, 16)) for _ in range(2)]
     case['perm'] = [draw(st.integers(0, 1000)) for _ in range(7)]
     case['NL'] = draw(st.booleans())
+    case['layout'] = draw(st.sampled_from(['C', 'F', 'T', 'mixed', 'strided']))
+    case['rows'] = draw(st.integers(2, 5))
     case['F'] = draw(st.one_of(st.none(), st.lists(st.lists(gen.fl(-1., 1.), min_size=6, max_size=6), min_size=6, max_size=6)))
     return case
 
